@@ -6,6 +6,7 @@ import (
 	"os"
 	"os/exec"
 	"path/filepath"
+	"regexp"
 	"sort"
 	"strconv"
 	"strings"
@@ -102,7 +103,7 @@ func (s *session) genBatch(prop string, worlds int, replayCase string) (batch st
 }
 
 // assemble writes go.mod/go.sum, the driver package and the runner test, then builds the test binary.
-func (s *session) assemble(batch string, entries []batchEntry, race bool) (bin string, err error) {
+func (s *session) assemble(batch string, entries []batchEntry, race bool, binName string) (bin string, err error) {
 	gomod := "module execmod\n\ngo 1.24\n\nrequire pgregory.net/rapid v1.3.0\n"
 	_ = os.WriteFile(filepath.Join(batch, "go.mod"), []byte(gomod), 0o644)
 	if b, e := os.ReadFile(filepath.Join(verifDir, "vp", "go.sum")); e == nil {
@@ -116,7 +117,13 @@ func (s *session) assemble(batch string, entries []batchEntry, race bool) (bin s
 			continue
 		}
 		b, _ := os.ReadFile(f)
+		b = []byte(strings.ReplaceAll(string(b), `"verif/vp/vsync"`, `"execmod/vsync"`))
 		_ = os.WriteFile(filepath.Join(drv, filepath.Base(f)), b, 0o644)
+	}
+	vs := filepath.Join(batch, "vsync")
+	_ = os.MkdirAll(vs, 0o755)
+	if b, e := os.ReadFile(filepath.Join(verifDir, "vp", "vsync", "vsync.go")); e == nil {
+		_ = os.WriteFile(filepath.Join(vs, "vsync.go"), b, 0o644)
 	}
 	var sb strings.Builder
 	sb.WriteString("package runner\n\nimport (\n\t\"testing\"\n\n\t\"execmod/execdrv\"\n")
@@ -132,7 +139,7 @@ func (s *session) assemble(batch string, entries []batchEntry, race bool) (bin s
 	sb.WriteString(")\n\nfunc TestExec(t *testing.T) { execdrv.Main(t) }\n\nfunc TestExecReplay(t *testing.T) { execdrv.Replay(t) }\n")
 	_ = os.MkdirAll(filepath.Join(batch, "runner"), 0o755)
 	_ = os.WriteFile(filepath.Join(batch, "runner", "runner_test.go"), []byte(sb.String()), 0o644)
-	bin = filepath.Join(s.scratch, "runner.test")
+	bin = filepath.Join(s.scratch, binName)
 	args := []string{"test", "-c", "-vet=off", "-o", bin}
 	if race {
 		args = append(args, "-race")
@@ -200,120 +207,144 @@ func execCampaign(s *session, c *campaign, prop, tier string, total int) {
 		c.lines = append(c.lines, fmt.Sprintf("INFRA no world survived generation (generated %d, rejected %d, not compiling %d): %v", bst.Generated, bst.Rejected, bst.NotCompiling, bst.DroppedSample))
 		return
 	}
-	bin, err := s.assemble(batch, bst.Entries, race)
+	bin, err := s.assemble(batch, bst.Entries, race, "runner.test")
 	if err != nil {
 		c.infra++
 		c.lines = append(c.lines, "INFRA "+err.Error())
 		return
 	}
-	env := append(s.harnessEnv(prop), "VP_TIER="+tier)
-	if race {
-		env = append(env, "GORACE=halt_on_error=1 exitcode=66")
-	}
-	nshards, per := shardCount(total)
-	shrink := "30s"
-	if tier == "thorough" {
-		shrink = "2m"
-	}
-	type res struct {
-		idx  int
-		dir  string
-		out  string
-		err  error
-		code int
-	}
-	results := make([]*res, nshards)
-	var wg sync.WaitGroup
-	for i := 0; i < nshards; i++ {
-		wg.Add(1)
-		go func(i int) {
-			defer wg.Done()
-			dir := filepath.Join(s.scratch, fmt.Sprintf("x%d", i))
-			_ = os.MkdirAll(dir, 0o755)
-			// the timeout is a watchdog against a deadlock inside generated code that the probes did not catch
-			// first: it makes the shard exit 2 (inconclusive), never a violation
-			cmd := exec.Command(bin, "-test.run", "^TestExec$", "-test.timeout", execTimeout(tier), "-test.count", "1",
-				"-rapid.checks", strconv.Itoa(per), "-rapid.seed", strconv.FormatUint(shardSeed(prop, i), 10),
-				"-rapid.shrinktime", shrink, "-rapid.nofailfile")
-			cmd.Dir = dir
-			cmd.Env = append(append([]string{}, env...), "VP_SHARD="+strconv.Itoa(i), "VP_SHARD_DIR="+dir)
-			out, err := cmd.CombinedOutput()
-			r := &res{idx: i, dir: dir, out: string(out), err: err}
-			if ee, ok := err.(*exec.ExitError); ok {
-				r.code = ee.ExitCode()
-			}
-			results[i] = r
-		}(i)
-	}
-	wg.Wait()
-
-	saveReplay := func(r *res, historyFile string) (string, bool) {
-		hb, err := os.ReadFile(filepath.Join(r.dir, historyFile))
-		if err != nil {
-			return "", false
+	runShards := func(bin string, total int, tag string, race bool, extraEnv ...string) {
+		env := append(s.harnessEnv(prop), "VP_TIER="+tier)
+		env = append(env, extraEnv...)
+		if race {
+			env = append(env, "GORACE=halt_on_error=1 exitcode=66")
 		}
-		var fc struct {
-			MockID string `json:"mock_id"`
+		nshards, per := shardCount(total)
+		shrink := "30s"
+		if tier == "thorough" {
+			shrink = "2m"
 		}
-		_ = json.Unmarshal(hb, &fc)
-		world := fc.MockID
-		if i := strings.Index(world, "/"); i >= 0 {
-			world = world[:i]
+		type res struct {
+			idx  int
+			dir  string
+			out  string
+			err  error
+			code int
 		}
-		dst := filepath.Join(verifDir, "replays", fmt.Sprintf("%s-%016x", prop, hashBytes(hb)))
-		_ = os.RemoveAll(dst)
-		_ = os.MkdirAll(dst, 0o755)
-		_ = os.WriteFile(filepath.Join(dst, "history.json"), hb, 0o644)
-		if cb, err := os.ReadFile(filepath.Join(batch, world, "vp_case.json")); err == nil {
-			var cs map[string]any
-			_ = json.Unmarshal(cb, &cs)
-			cs["property"] = prop
-			cb, _ = json.MarshalIndent(cs, "", " ")
-			_ = os.WriteFile(filepath.Join(dst, "case.json"), cb, 0o644)
-		}
-		_, _ = run("/", nil, "cp", "-a", filepath.Join(batch, world), filepath.Join(dst, "world"))
-		return dst, true
-	}
-	for _, r := range results {
-		var st map[string]any
-		if sb, e := os.ReadFile(filepath.Join(r.dir, "stats.json")); e == nil {
-			_ = json.Unmarshal(sb, &st)
-		}
-		if st != nil {
-			c.merged.add(st)
-		}
-		switch {
-		case r.err == nil:
-			if st == nil {
-				c.infra++
-				c.lines = append(c.lines, fmt.Sprintf("INFRA exec shard %d wrote no stats\n%s", r.idx, tail(r.out, 20)))
-			}
-		case r.code == 66 || strings.Contains(r.out, "WARNING: DATA RACE"):
-			dst, ok := saveReplay(r, "current.json")
-			if !ok {
-				c.infra++
-				c.lines = append(c.lines, fmt.Sprintf("INFRA race reported but no current.json in shard %d\n%s", r.idx, tail(r.out, 30)))
-				continue
-			}
-			_ = os.WriteFile(filepath.Join(dst, "race_report.txt"), []byte(r.out), 0o644)
-			c.violations++
-			c.lines = append(c.lines, fmt.Sprintf("VIOLATION property=%s replay=%s", prop, dst), "  data race inside generated code: "+raceSummary(r.out))
-		default:
-			if dst, ok := saveReplay(r, "fail.json"); ok {
-				var fc struct {
-					Violation struct {
-						Oracle string `json:"oracle"`
-						Msg    string `json:"msg"`
-					} `json:"violation"`
+		results := make([]*res, nshards)
+		var wg sync.WaitGroup
+		for i := 0; i < nshards; i++ {
+			wg.Add(1)
+			go func(i int) {
+				defer wg.Done()
+				dir := filepath.Join(s.scratch, fmt.Sprintf("%s%d", tag, i))
+				_ = os.MkdirAll(dir, 0o755)
+				// the timeout is a watchdog against a deadlock inside generated code that the probes did not catch
+				// first: it makes the shard exit 2 (inconclusive), never a violation
+				cmd := exec.Command(bin, "-test.run", "^TestExec$", "-test.timeout", execTimeout(tier), "-test.count", "1",
+					"-rapid.checks", strconv.Itoa(per), "-rapid.seed", strconv.FormatUint(shardSeed(prop+tag, i), 10),
+					"-rapid.shrinktime", shrink, "-rapid.nofailfile")
+				cmd.Dir = dir
+				cmd.Env = append(append([]string{}, env...), "VP_SHARD="+strconv.Itoa(i), "VP_SHARD_DIR="+dir)
+				out, err := cmd.CombinedOutput()
+				r := &res{idx: i, dir: dir, out: string(out), err: err}
+				if ee, ok := err.(*exec.ExitError); ok {
+					r.code = ee.ExitCode()
 				}
-				hb, _ := os.ReadFile(filepath.Join(dst, "history.json"))
-				_ = json.Unmarshal(hb, &fc)
-				c.violations++
-				c.lines = append(c.lines, fmt.Sprintf("VIOLATION property=%s replay=%s", prop, dst), "  "+fc.Violation.Oracle+": "+firstN(fc.Violation.Msg, 500))
-			} else {
-				c.infra++
-				c.lines = append(c.lines, fmt.Sprintf("INFRA exec shard %d failed without a saved case (exit %d)\n%s", r.idx, r.code, tail(r.out, 40)))
+				results[i] = r
+			}(i)
+		}
+		wg.Wait()
+
+		saveReplay := func(r *res, historyFile string) (string, bool) {
+			hb, err := os.ReadFile(filepath.Join(r.dir, historyFile))
+			if err != nil {
+				return "", false
 			}
+			var fc struct {
+				MockID string `json:"mock_id"`
+			}
+			_ = json.Unmarshal(hb, &fc)
+			world := fc.MockID
+			if i := strings.Index(world, "/"); i >= 0 {
+				world = world[:i]
+			}
+			dst := filepath.Join(verifDir, "replays", fmt.Sprintf("%s-%016x", prop, hashBytes(hb)))
+			_ = os.RemoveAll(dst)
+			_ = os.MkdirAll(dst, 0o755)
+			_ = os.WriteFile(filepath.Join(dst, "history.json"), hb, 0o644)
+			if cb, err := os.ReadFile(filepath.Join(batch, world, "vp_case.json")); err == nil {
+				var cs map[string]any
+				_ = json.Unmarshal(cb, &cs)
+				cs["property"] = prop
+				cb, _ = json.MarshalIndent(cs, "", " ")
+				_ = os.WriteFile(filepath.Join(dst, "case.json"), cb, 0o644)
+			}
+			_, _ = run("/", nil, "cp", "-a", filepath.Join(batch, world), filepath.Join(dst, "world"))
+			return dst, true
+		}
+		for _, r := range results {
+			var st map[string]any
+			if sb, e := os.ReadFile(filepath.Join(r.dir, "stats.json")); e == nil {
+				_ = json.Unmarshal(sb, &st)
+			}
+			if st != nil {
+				c.merged.add(st)
+			}
+			switch {
+			case r.err == nil:
+				if st == nil {
+					c.infra++
+					c.lines = append(c.lines, fmt.Sprintf("INFRA exec shard %d wrote no stats\n%s", r.idx, tail(r.out, 20)))
+				}
+			case r.code == 66 || strings.Contains(r.out, "WARNING: DATA RACE"):
+				dst, ok := saveReplay(r, "current.json")
+				if !ok {
+					c.infra++
+					c.lines = append(c.lines, fmt.Sprintf("INFRA race reported but no current.json in shard %d\n%s", r.idx, tail(r.out, 30)))
+					continue
+				}
+				_ = os.WriteFile(filepath.Join(dst, "race_report.txt"), []byte(r.out), 0o644)
+				c.violations++
+				c.lines = append(c.lines, fmt.Sprintf("VIOLATION property=%s replay=%s", prop, dst), "  data race inside generated code: "+raceSummary(r.out))
+			default:
+				if dst, ok := saveReplay(r, "fail.json"); ok {
+					var fc struct {
+						Violation struct {
+							Oracle string `json:"oracle"`
+							Msg    string `json:"msg"`
+						} `json:"violation"`
+					}
+					hb, _ := os.ReadFile(filepath.Join(dst, "history.json"))
+					_ = json.Unmarshal(hb, &fc)
+					c.violations++
+					c.lines = append(c.lines, fmt.Sprintf("VIOLATION property=%s replay=%s", prop, dst), "  "+fc.Violation.Oracle+": "+firstN(fc.Violation.Msg, 500))
+				} else {
+					c.infra++
+					c.lines = append(c.lines, fmt.Sprintf("INFRA exec shard %d failed without a saved case (exit %d)\n%s", r.idx, r.code, tail(r.out, 40)))
+				}
+			}
+		}
+	}
+	runShards(bin, total, "x", race)
+	// harness-owned schedules: the same batch with the mocks' sync import redirected to vsync (plain build)
+	if prop == "C05" || prop == "C06" {
+		nrew := redirectSync(batch, bst.Entries)
+		sbin, err := s.assemble(batch, bst.Entries, false, "runner_sched.test")
+		if err != nil {
+			c.infra++
+			c.lines = append(c.lines, "INFRA (sched build) "+err.Error())
+		} else {
+			stotal := b.SchedQuick
+			if tier == "thorough" {
+				stotal = b.SchedThorough
+			}
+			if v := os.Getenv("VP_SCHED_CHECKS"); v != "" {
+				stotal, _ = strconv.Atoi(v)
+			}
+			runShards(sbin, stotal, "y", false, "VP_MODE=sched")
+			c.merged.extra["sched_mock_files_redirected_to_vsync"] = float64(nrew)
+			c.merged.extra["sched_cases_requested"] = float64(stotal)
 		}
 	}
 	// build-side facts go into the evidence
@@ -393,7 +424,14 @@ func execReplay(s *session, dir, tag string) (int, string) {
 		return 2, fmt.Sprintf("world could not be rebuilt: %v %v", lines, bst.DroppedSample)
 	}
 	race := cs.Prop == "C05"
-	bin, err := sub.assemble(batch, bst.Entries, race)
+	sched := false
+	if hb, e := os.ReadFile(filepath.Join(dir, "history.json")); e == nil && strings.Contains(string(hb), `"mode": "sched"`) {
+		sched = true
+		redirectSync(batch, bst.Entries)
+		race = false
+	}
+	_ = sched
+	bin, err := sub.assemble(batch, bst.Entries, race, "runner.test")
 	if err != nil {
 		return 2, err.Error()
 	}
@@ -421,4 +459,34 @@ func execReplay(s *session, dir, tag string) (int, string) {
 		return 1, fmt.Sprint(res.Violations[0]["oracle"], ": ", res.Violations[0]["msg"])
 	}
 	return 0, ""
+}
+
+var syncImportRe = regexp.MustCompile(`(?m)^(\s*)(?:(\w+)\s+)?"sync"[ \t]*$`)
+
+// redirectSync rewrites moq's OUTPUT (never moq): the sync import of every generated mock file of the batch is
+// pointed at the API-identical vsync package, so every lock operation becomes a scheduling point.
+func redirectSync(batch string, entries []batchEntry) int {
+	n := 0
+	for _, e := range entries {
+		for _, ip := range e.Imports {
+			file := filepath.Join(batch, strings.TrimPrefix(ip, "execmod/"), "mock_gen.go")
+			b, err := os.ReadFile(file)
+			if err != nil {
+				continue
+			}
+			out := syncImportRe.ReplaceAllStringFunc(string(b), func(m string) string {
+				sm := syncImportRe.FindStringSubmatch(m)
+				alias := sm[2]
+				if alias == "" {
+					alias = "sync"
+				}
+				return sm[1] + alias + ` "execmod/vsync"`
+			})
+			if out != string(b) {
+				n++
+				_ = os.WriteFile(file, []byte(out), 0o644)
+			}
+		}
+	}
+	return n
 }
